@@ -407,7 +407,9 @@ fn worker_body(prop: &'static dyn Prop, args: WorkerArgs) -> i32 {
                         cx.cur.idle();
                         cx.st.label("replay_file");
                         if let Some(mut v) = cx.after_case(sec.name, &input, verdict) {
-                            v.case = json!({"replay_file": path, "case": v.case});
+                            if let Some(o) = v.case.as_object_mut() {
+                                o.insert("replay_file".into(), json!(path));
+                            }
                             // known-example replays are expected to fail with a known signature
                             cx.record("replays", &input, v);
                         }
